@@ -51,7 +51,7 @@ def expect_axes(v, axes, what):
 def run(chk):
     G = GenEnv(chk.repo)
     chk.files = G.w.files
-    thorough = chk.tier == "thorough"
+    thorough = chk.full
     chk.rule("C08.R1", "samplers draw the requested number of points, coordinate i in [min_i, max_i] of its own axis", floor=8)
     chk.rule("C08.R2", "border facets: pinned coordinate and side per facet (xmin, xmax, ymin, ymax), free coordinate in its own "
                        "range; 1-D border is the pair of end points served as (1, 1, 2)", floor=3)
